@@ -66,7 +66,7 @@ fn try_unwrap_cast_binary(
     if let (Some((inner_expr, cast_type)), Some(literal)) = (
         extract_cast_info(binary.left()),
         binary.right().downcast_ref::<Literal>(),
-    ) && binary.op().supports_propagation()
+    ) && is_comparison(binary.op())
         && let Some(unwrapped) = try_unwrap_cast_comparison(
             Arc::clone(inner_expr),
             literal.value(),
@@ -85,7 +85,7 @@ fn try_unwrap_cast_binary(
     ) {
         // For literal op cast(expr), we need to swap the operator
         if let Some(swapped_op) = binary.op().swap()
-            && binary.op().supports_propagation()
+            && is_comparison(binary.op())
             && let Some(unwrapped) = try_unwrap_cast_comparison(
                 Arc::clone(inner_expr),
                 literal.value(),
@@ -101,6 +101,22 @@ fn try_unwrap_cast_binary(
     }
 
     Ok(None)
+}
+
+/// Only comparisons are unwrapped: `Operator::supports_propagation` also lists the
+/// regex-match operators, whose operands must stay strings.
+fn is_comparison(op: &Operator) -> bool {
+    matches!(
+        op,
+        Operator::Eq
+            | Operator::NotEq
+            | Operator::Lt
+            | Operator::LtEq
+            | Operator::Gt
+            | Operator::GtEq
+            | Operator::IsDistinctFrom
+            | Operator::IsNotDistinctFrom
+    )
 }
 
 /// Extract cast information from a physical expression
